@@ -1,12 +1,14 @@
-(* C16: totality of the IDL parser model.
+(* C16: totality of the IDL parser model, and the bound on its native recursion depth.
 
    [trans P Q p]: on every input satisfying P the parser p does not panic and does not run out of fuel; if it
    succeeds, what remains is a suffix of the input and satisfies Q.  The admissible inputs of the whole
-   development are   adm lf df i  :=  length i < lf  /\  openers i < df
-   where [openers] counts the bytes '<' '[' '{' : every loop iteration consumes a byte (so loop fuel above the
-   input length never runs out) and every native recursion is entered only after one of these three bytes has
-   been consumed (so depth fuel above the number of such bytes never runs out). *)
-From PVIdl Require Import Comb Ast Parser.
+   development are   adm lf m i  :=  length i < lf  /\  nesting i < m
+   where [nesting] (Proofs/Nesting.v) is the deepest bracket nesting ('<' '[' '{' against '>' ']' '}', comments and
+   string literals skipped) of the text that remains: every loop iteration consumes a byte (so loop fuel above the
+   input length never runs out), and every native recursion is entered only after an opening bracket has been
+   consumed, which lowers the nesting of the remaining text by one, while the matching closing bracket gives the
+   level back (so depth fuel above the nesting never runs out -- siblings reuse the same budget). *)
+From PVIdl Require Import Comb Ast Parser Proofs.Nesting.
 From Coq Require Import ZifyN ZifyNat ZifyBool.
 Open Scope nat_scope.
 
@@ -39,22 +41,9 @@ Proof.
   apply same_len_iff in e. congruence.
 Qed.
 
-(* ---------- the measure for native recursion ---------- *)
-Definition is_opener (b : byte) : bool := bmem b [x3c; x5b; x7b].   (* '<' '[' '{' *)
-Fixpoint openers (i : input) : nat :=
-  match i with [] => 0 | b :: r => (if is_opener b then 1 else 0) + openers r end.
-
-Lemma openers_app a b : openers (a ++ b) = openers a + openers b.
-Proof. induction a as [|x a IH]; cbn [openers app]; lia. Qed.
-Lemma openers_sfx r i : sfx r i -> openers r <= openers i.
-Proof. intros [p ->]. rewrite openers_app. lia. Qed.
-Lemma openers_le_len i : openers i <= length i.
-Proof. induction i as [|b i IH]; cbn [openers length]; [lia|]. destruct (is_opener b); lia. Qed.
-
-Definition adm (lf df : nat) (i : input) : Prop := length i < lf /\ openers i < df.
-
-Lemma adm_sfx lf df i r : adm lf df i -> sfx r i -> adm lf df r.
-Proof. intros [H1 H2] S. pose proof (sfx_len _ _ S). pose proof (openers_sfx _ _ S). split; lia. Qed.
+(* ---------- admissible inputs ---------- *)
+Definition adm (lf m : nat) (i : input) : Prop := length i < lf /\ (nesting i < Z.of_nat m)%Z.
+Definition lenlt (lf : nat) (i : input) : Prop := length i < lf.
 
 (* ---------- trans ---------- *)
 Definition ok_res {A} (Q : input -> Prop) (i : input) (r : pres A) : Prop :=
@@ -68,9 +57,9 @@ Definition trans {A} (P Q : input -> Prop) (p : parser A) : Prop := forall i, P 
 
 Definition closed (P : input -> Prop) : Prop := forall i r, P i -> sfx r i -> P r.
 
-Lemma adm_closed lf df : closed (adm lf df).
-Proof. intros i r. apply adm_sfx. Qed.
-#[export] Hint Resolve adm_closed : safe.
+Lemma lenlt_closed lf : closed (lenlt lf).
+Proof. intros i r H S. apply sfx_len in S. unfold lenlt in *. lia. Qed.
+#[export] Hint Resolve lenlt_closed : safe.
 
 Lemma ok_res_weaken {A} (Q Q' : input -> Prop) i (r : pres A) :
   (forall x, sfx x i -> Q x -> Q' x) -> ok_res Q i r -> ok_res Q' i r.
@@ -210,9 +199,9 @@ Lemma total_eof : total eof.
 Proof. intros [|b i]; cbn; auto with safe. Qed.
 
 (* ---------- combinators ---------- *)
-Lemma trans_opt {A} P (p : parser A) : closed P -> trans P P p -> trans P P (opt p).
+Lemma trans_opt {A} P (p : parser A) : trans P P p -> trans P P (opt p).
 Proof.
-  intros C T i Pi. specialize (T i Pi). unfold opt. destruct (p i); cbn in *; auto with safe.
+  intros T i Pi. specialize (T i Pi). unfold opt. destruct (p i); cbn in *; auto with safe.
 Qed.
 
 Lemma trans_peek {A} P Q (p : parser A) : trans P Q p -> trans P P (peek p).
@@ -252,9 +241,9 @@ Proof.
 Qed.
 
 Lemma trans_permutation2 {A B} P (p : parser A) (q : parser B) :
-  closed P -> trans P P p -> trans P P q -> trans P P (permutation2 p q).
+  trans P P p -> trans P P q -> trans P P (permutation2 p q).
 Proof.
-  intros C Tp Tq i Pi. unfold permutation2.
+  intros Tp Tq i Pi. unfold permutation2.
   pose proof (Tp i Pi) as Hp. destruct (p i) as [i1 a| | | |]; cbn in *; try tauto.
   - destruct Hp as [S1 P1]. pose proof (Tq i1 P1) as Hq. destruct (q i1); cbn in *; try tauto.
     destruct Hq as [S2 P2]. split; auto. eapply sfx_trans; eauto.
@@ -385,35 +374,89 @@ Lemma trans_seq_same {A B} P (p : parser A) (f : A -> parser B) :
   trans P P p -> (forall a, trans P P (f a)) -> trans P P (fun i => do i, a <- p i ;; f a i).
 Proof. apply trans_seq. Qed.
 
-Lemma trans_eta {A} P Q (p : parser A) : trans P Q p -> trans P Q (fun i => p i).
-Proof. auto. Qed.
+Lemma trans_peek_same {A} P (p : parser A) : trans P P p -> trans P P (peek p).
+Proof. apply trans_peek. Qed.
+
+(* a token parser that is total and lexically neutral keeps every level of admissibility *)
+Lemma tr_prim {A} lf m (p : parser A) : total p -> neutral p -> trans (adm lf m) (adm lf m) p.
+Proof.
+  intros T N i [L Hn]. specialize (T i). specialize (N i). destruct (p i) as [r a| | | |]; cbn in *; try tauto.
+  destruct T as [S _]. split; [exact S|]. split; [apply sfx_len in S; lia|]. rewrite (N r a eq_refl). exact Hn.
+Qed.
+
+(* a parser whose result is thrown away (under peek(not(..))) only has to be total *)
+Lemma tr_total_any {A} P (p : parser A) : total p -> trans P (fun _ => True) p.
+Proof. intros T i _. specialize (T i). destruct (p i); cbn in *; tauto. Qed.
+
+Lemma adm_len lf m i : adm lf m i -> length i < lf.
+Proof. intros [H _]. exact H. Qed.
+
+Lemma adm_zero lf i : ~ adm lf 0 i.
+Proof. intros [_ H]. pose proof (nesting_nonneg i). lia. Qed.
+
+Lemma trans_vac {A} lf Q (p : parser A) : trans (adm lf 0) Q p.
+Proof. intros i H. destruct (adm_zero _ _ H). Qed.
+
+(* consuming an opening bracket pays for one level; the closing bracket gives it back *)
+Lemma trans_tag_open lf m b : is_opener b = true -> trans (adm lf (S m)) (adm lf m) (tag [b]).
+Proof.
+  intros Hb i [L Hn]. unfold tag. destruct (strip_prefix [b] i) as [r|] eqn:E; cbn; auto.
+  apply strip_prefix_eq in E. subst i. cbn [app] in *. rewrite (nesting_opener b r Hb) in Hn. cbn [length] in L.
+  split; [apply sfx_cons|]. split; lia.
+Qed.
+
+Lemma trans_tag_close lf m b : is_closer b = true -> trans (adm lf m) (adm lf (S m)) (tag [b]).
+Proof.
+  intros Hb i [L Hn]. unfold tag. destruct (strip_prefix [b] i) as [r|] eqn:E; cbn; auto.
+  apply strip_prefix_eq in E. subst i. cbn [app] in *. pose proof (nesting_closer b r Hb). cbn [length] in L.
+  split; [apply sfx_cons|]. split; lia.
+Qed.
+
+Lemma tr_tag lf m t : forallb plain t = true -> trans (adm lf m) (adm lf m) (tag t).
+Proof. intros H. apply tr_prim; [apply total_tag | now apply neutral_tag]. Qed.
 
 #[export] Hint Resolve total_tag total_tag_no_case total_take_while total_take_till total_span1 total_take_until
   total_satisfy_b total_one_of total_none_of total_satisfy_c total_eof : safe.
-#[export] Hint Resolve trans_opt trans_recognize trans_map_res trans_pmap trans_permutation2 trans_ret : safe.
-Lemma trans_peek_same {A} P (p : parser A) : trans P P p -> trans P P (peek p).
-Proof. apply trans_peek. Qed.
-Lemma trans_not_same {A} P (p : parser A) : trans P P p -> trans P P (not_ p).
-Proof. apply trans_not. Qed.
-#[export] Hint Resolve trans_peek_same trans_not_same : safe.
-#[export] Hint Extern 5 (trans ?P ?P _) => apply total_trans; [auto with safe | ] : safe.
+#[export] Hint Resolve trans_opt trans_recognize trans_map_res trans_pmap trans_permutation2 trans_ret
+  trans_peek_same : safe.
 #[export] Hint Extern 2 (trans _ _ (fun i => pbind _ _)) => apply trans_seq_same; [ | intro ] : safe.
 #[export] Hint Extern 2 (trans _ _ (alt _)) => apply trans_alt; repeat apply Forall_cons; try apply Forall_nil : safe.
+#[export] Hint Extern 3 (trans (adm _ _) (adm _ _) (tag _)) => apply tr_tag; vm_compute; reflexivity : safe.
+#[export] Hint Extern 1 (forall i, adm ?lf ?m i -> length i < ?lf) => exact (adm_len lf m) : safe.
+#[export] Hint Extern 1 (trans _ _ (fun _ => _)) =>
+  (match goal with |- trans ?P ?Q (fun i => ?p i) => change (trans P Q p) end) : safe.
 
 Section Productions.
-Variables lf df : nat.
-Local Notation P := (adm lf df).
+Variables lf m : nat.
+Local Notation P := (adm lf m).
 
-Lemma P_closed : closed P.
-Proof. apply adm_closed. Qed.
-Lemma P_len i : P i -> length i < lf.
-Proof. intros [H _]. exact H. Qed.
-Hint Resolve P_closed P_len : safe.
+Ltac tr := auto 40 with safe.
 
-Ltac tr := unfold digit1, hex_digit1, multispace1; auto 30 with safe.
+Lemma tr_digit1 : trans P P digit1.
+Proof. apply tr_prim; [apply total_span1 | apply neutral_span1, plain_digit]. Qed.
+Lemma tr_hex_digit1 : trans P P hex_digit1.
+Proof. apply tr_prim; [apply total_span1 | apply neutral_span1, plain_hexdigit]. Qed.
+Lemma tr_multispace1 : trans P P multispace1.
+Proof. apply tr_prim; [apply total_span1 | apply neutral_span1, plain_space]. Qed.
+Lemma tr_eof : trans P P eof.
+Proof. apply tr_prim; [apply total_eof|]. intros i r a H. destruct i; [|discriminate]. now inversion H. Qed.
+Hint Resolve tr_digit1 tr_hex_digit1 tr_multispace1 tr_eof : safe.
+
+Lemma total_comment : total p_comment.
+Proof.
+  assert (Tt : forall A (p : parser A), total p -> trans (fun _ : input => True) (fun _ => True) p).
+  { intros A p T. apply total_trans; [intros ? ? ? ?; exact I | exact T]. }
+  assert (T : trans (fun _ => True) (fun _ => True) p_comment).
+  { unfold p_comment. apply trans_alt. repeat apply Forall_cons; try apply Forall_nil.
+    - apply trans_seq_same; [apply Tt; auto with safe|intro]. apply Tt; auto with safe.
+    - apply trans_seq_same; [apply Tt; auto with safe|intro]. apply trans_seq_same; [apply Tt; auto with safe|intro].
+      apply trans_seq_same; [apply Tt; auto with safe|intro]. apply trans_ret.
+    - apply trans_seq_same; [apply Tt; auto with safe|intro]. apply Tt; auto with safe. }
+  intros i. apply T. exact I.
+Qed.
 
 Lemma tr_comment : trans P P p_comment.
-Proof. unfold p_comment. tr. Qed.
+Proof. apply tr_prim; [apply total_comment | apply neutral_comment]. Qed.
 Hint Resolve tr_comment : safe.
 
 Lemma tr_blank : trans P P (p_blank lf).
@@ -424,15 +467,24 @@ Qed.
 Hint Resolve tr_blank : safe.
 
 Lemma tr_list_separator : trans P P (p_list_separator lf).
-Proof. unfold p_list_separator. tr. Qed.
+Proof.
+  unfold p_list_separator. apply trans_seq_same; [|intro; tr].
+  apply tr_prim; [apply total_one_of | apply neutral_one_of; vm_compute; reflexivity].
+Qed.
 Hint Resolve tr_list_separator : safe.
 
-Lemma tr_keyword k : trans P P (p_keyword k).
-Proof. unfold p_keyword, p_alphanumeric_or_underscore. tr. Qed.
-Hint Resolve tr_keyword : safe.
+Lemma tr_keyword k : forallb plain k = true -> trans P P (p_keyword k).
+Proof.
+  intros Hk. unfold p_keyword, p_alphanumeric_or_underscore. apply trans_seq_same; [now apply tr_tag|intro].
+  apply trans_seq_same; [|intro; tr]. apply trans_peek_same. eapply trans_not. apply tr_total_any. auto with safe.
+Qed.
 
 Lemma tr_ident : trans P P p_ident.
-Proof. unfold p_ident. tr. Qed.
+Proof.
+  unfold p_ident. apply trans_recognize. apply trans_seq_same; [|intro].
+  - apply tr_prim; [apply total_satisfy_b | apply neutral_satisfy_b, plain_ident_head].
+  - apply tr_prim; [apply total_take_while | apply neutral_take_while, plain_ident_tail].
+Qed.
 Hint Resolve tr_ident : safe.
 
 Lemma tr_path : trans P P (p_path lf).
@@ -442,19 +494,37 @@ Proof.
 Qed.
 Hint Resolve tr_path : safe.
 
-Lemma tr_quote q s : trans P P (p_quote_parser lf q s).
+Lemma total_quote q s : trans (lenlt lf) (lenlt lf) (p_quote_parser lf q s).
 Proof.
-  unfold p_quote_parser. apply trans_seq_same; [tr|intro]. apply trans_seq_same; [|intro; tr].
-  apply trans_alt. repeat apply Forall_cons; try apply Forall_nil; [|tr].
-  apply trans_escaped; tr.
+  assert (Hl : forall i, lenlt lf i -> length i < lf) by (intros i H; exact H).
+  assert (Tt : forall t, trans (lenlt lf) (lenlt lf) (tag t)) by (intro; apply total_trans; auto with safe).
+  unfold p_quote_parser. apply trans_seq_same; [apply Tt|intro]. apply trans_seq_same; [|intro].
+  - apply trans_alt. repeat apply Forall_cons; try apply Forall_nil; [|apply Tt].
+    apply trans_escaped; auto with safe; apply total_trans; auto with safe.
+  - apply trans_seq_same; [apply Tt|intro]. apply trans_ret.
 Qed.
 
 Lemma tr_literal : trans P P (p_literal lf).
-Proof. unfold p_literal, p_single_quote, p_double_quote. pose proof tr_quote. tr. Qed.
+Proof.
+  intros i [L Hn]. pose proof (neutral_literal lf i) as N.
+  assert (T : ok_res (lenlt lf) i (p_literal lf i)).
+  { unfold p_literal, p_single_quote, p_double_quote.
+    apply (trans_alt (lenlt lf) (lenlt lf)); [|exact L]. repeat apply Forall_cons; try apply Forall_nil; apply total_quote. }
+  destruct (p_literal lf i) as [r a| | | |]; cbn in *; try tauto.
+  destruct T as [S L']. split; [exact S|]. split; [exact L'|]. rewrite (N r a eq_refl). exact Hn.
+Qed.
 Hint Resolve tr_literal : safe.
 
+Lemma tr_annotation_key : trans P P p_annotation_key.
+Proof.
+  unfold p_annotation_key. apply trans_recognize. apply trans_seq_same; [|intro].
+  - apply tr_prim; [apply total_satisfy_b | apply neutral_satisfy_b, plain_ident_head].
+  - apply tr_prim; [apply total_take_while | apply neutral_take_while, plain_annkey_tail].
+Qed.
+Hint Resolve tr_annotation_key : safe.
+
 Lemma tr_annotation : trans P P (p_annotation lf).
-Proof. unfold p_annotation, p_annotation_key. tr. Qed.
+Proof. unfold p_annotation. tr. Qed.
 Hint Resolve tr_annotation : safe.
 
 Lemma tr_annotations : trans P P (p_annotations lf).
@@ -469,10 +539,14 @@ Proof. unfold p_include. tr. Qed.
 Lemma tr_cpp_include : trans P P (p_cpp_include lf).
 Proof. unfold p_cpp_include. tr. Qed.
 
+Lemma scope_tags_plain : forallb (forallb plain) scope_tags = true.
+Proof. vm_compute. reflexivity. Qed.
+
 Lemma tr_scope : trans P P p_scope.
 Proof.
   unfold p_scope. apply trans_alt. apply Forall_forall. intros p Hp.
-  apply in_map_iff in Hp. destruct Hp as [t [<- _]]. tr.
+  apply in_map_iff in Hp. destruct Hp as [t [<- Ht]]. apply tr_tag.
+  pose proof scope_tags_plain as H. rewrite forallb_forall in H. auto.
 Qed.
 Hint Resolve tr_scope tr_include tr_cpp_include : safe.
 
@@ -491,134 +565,145 @@ Proof.
 Qed.
 Hint Resolve tr_int_constant : safe.
 
-Lemma tr_exponent e : trans P P (p_exponent lf e).
-Proof. unfold p_exponent. tr. Qed.
-Hint Resolve tr_exponent : safe.
+Lemma tr_tag_no_case_e e : e = [x65] -> trans P P (tag_no_case e).
+Proof. intros ->. apply tr_prim; [apply total_tag_no_case | apply neutral_tag_no_case_e]. Qed.
+
+Lemma tr_exponent e : e = [x65] -> trans P P (p_exponent lf e).
+Proof. intros He. unfold p_exponent. pose proof (tr_tag_no_case_e e He). tr. Qed.
 
 Lemma tr_double_constant : trans P P (p_double_constant lf).
 Proof.
+  pose proof (tr_exponent sym_dbl_exp_a eq_refl). pose proof (tr_exponent sym_dbl_exp_b eq_refl).
+  pose proof (tr_tag_no_case_e sym_dbl_exp_c eq_refl).
   unfold p_double_constant. apply trans_map_res, trans_recognize.
   apply trans_seq_same; [tr|intro]. apply trans_seq_same; [tr|intro].
-  apply trans_alt. repeat apply Forall_cons; try apply Forall_nil.
-  - tr.
-  - tr.
-  - tr.
+  apply trans_alt. repeat apply Forall_cons; try apply Forall_nil; tr.
 Qed.
 Hint Resolve tr_double_constant : safe.
 
 Lemma tr_attribute : trans P P p_attribute.
-Proof. unfold p_attribute. tr. Qed.
+Proof.
+  unfold p_attribute. apply trans_alt. repeat apply Forall_cons; try apply Forall_nil;
+    (apply trans_seq_same; [apply tr_keyword; vm_compute; reflexivity | intro; tr]).
+Qed.
 Lemma tr_field_id : trans P P (p_field_id lf).
 Proof. unfold p_field_id. tr. Qed.
 Hint Resolve tr_attribute tr_field_id : safe.
 
 Lemma tr_enum_value : trans P P (p_enum_value lf).
 Proof. unfold p_enum_value. tr. Qed.
-Hint Resolve tr_enum_value : safe.
 
-Lemma tr_enum : trans P P (p_enum lf).
+Lemma tr_base_ty k t : forallb plain k = true -> trans P P (p_base_ty k t).
+Proof. intros Hk. unfold p_base_ty. apply trans_seq_same; [now apply tr_keyword | intro; tr]. Qed.
+
+Lemma tr_item_keyword : trans P P p_item_keyword.
 Proof.
-  unfold p_enum.
-  do 6 (apply trans_seq_same; [tr|intro]). apply trans_seq_same; [|intro; tr].
-  apply trans_many0; tr.
+  unfold p_item_keyword. apply trans_peek_same, trans_recognize. apply trans_seq_same; [|intro].
+  - apply tr_prim; [apply total_satisfy_b | apply neutral_satisfy_b, plain_alpha].
+  - apply tr_prim; [apply total_take_while | apply neutral_take_while, plain_ident_tail].
 Qed.
-Hint Resolve tr_enum : safe.
-
 End Productions.
 
-(* ---------- the same facts, for every lf and df ---------- *)
-Lemma adm_len lf df i : adm lf df i -> length i < lf.
-Proof. intros [H _]. exact H. Qed.
-#[export] Hint Extern 1 (forall i, adm ?lf ?df i -> length i < ?lf) => exact (adm_len lf df) : safe.
-#[export] Hint Resolve tr_comment tr_blank tr_list_separator tr_keyword tr_ident tr_path tr_literal tr_annotation
-  tr_annotations tr_include tr_cpp_include tr_scope tr_namespace tr_cpp_type tr_int_constant tr_exponent
-  tr_double_constant tr_attribute tr_field_id tr_enum_value tr_enum : safe.
+#[export] Hint Resolve tr_digit1 tr_hex_digit1 tr_multispace1 tr_eof tr_comment tr_blank tr_list_separator tr_ident
+  tr_path tr_literal tr_annotation_key tr_annotation tr_annotations tr_include tr_cpp_include tr_scope tr_namespace
+  tr_cpp_type tr_int_constant tr_double_constant tr_attribute tr_field_id tr_enum_value tr_item_keyword : safe.
+#[export] Hint Extern 3 (trans (adm _ _) (adm _ _) (p_keyword _)) => apply tr_keyword; vm_compute; reflexivity : safe.
+#[export] Hint Extern 3 (trans (adm _ _) (adm _ _) (p_base_ty _ _)) => apply tr_base_ty; vm_compute; reflexivity : safe.
 
-Ltac trg := unfold digit1, hex_digit1, multispace1; auto 30 with safe.
+Ltac trg := auto 40 with safe.
 Ltac stepS := apply trans_seq_same; [trg | intro].
 
-Lemma adm_weaken lf d i : adm lf d i -> adm lf (S d) i.
-Proof. intros [H1 H2]. split; lia. Qed.
+(* the brackets of the grammar *)
+Lemma open_lt : is_opener x3c = true. Proof. reflexivity. Qed.
+Lemma open_sq : is_opener x5b = true. Proof. reflexivity. Qed.
+Lemma open_br : is_opener x7b = true. Proof. reflexivity. Qed.
+Lemma close_gt : is_closer x3e = true. Proof. reflexivity. Qed.
+Lemma close_sq : is_closer x5d = true. Proof. reflexivity. Qed.
+Lemma close_br : is_closer x7d = true. Proof. reflexivity. Qed.
 
-(* consuming an opening bracket pays for one level of native recursion *)
-Lemma trans_tag_open lf d t : 0 < openers t -> trans (adm lf (S d)) (adm lf d) (tag t).
-Proof.
-  intros Ht i [L O]. unfold tag. destruct (strip_prefix t i) as [r|] eqn:E; cbn; auto.
-  apply strip_prefix_app in E. subst i. rewrite openers_app in O. rewrite app_length in L.
-  split; [now exists t|]. split; lia.
-Qed.
-
-Lemma tr_type_of lf df (pty : parser Ty) :
-  trans (adm lf df) (adm lf df) pty -> trans (adm lf df) (adm lf df) (p_type_of lf pty).
+Lemma tr_type_of lf m (pty : parser Ty) :
+  trans (adm lf m) (adm lf m) pty -> trans (adm lf m) (adm lf m) (p_type_of lf pty).
 Proof.
   intros T. unfold p_type_of. apply trans_seq_same; [exact T|intro].
   apply trans_seq_same; [|intro; trg].
-  apply trans_opt; [trg|]. apply trans_seq_same; [|intro; trg].
+  apply trans_opt. apply trans_seq_same; [|intro; trg].
   apply trans_permutation2; trg.
 Qed.
 
-Lemma tr_base_ty lf df k t : trans (adm lf df) (adm lf df) (p_base_ty k t).
-Proof. unfold p_base_ty. trg. Qed.
-#[export] Hint Resolve tr_base_ty : safe.
-
-Lemma open_list_lt : 0 < openers sym_list_lt. Proof. cbv. lia. Qed.
-Lemma open_set_lt : 0 < openers sym_set_lt. Proof. cbv. lia. Qed.
-Lemma open_map_lt : 0 < openers sym_map_lt. Proof. cbv. lia. Qed.
-Lemma open_clist : 0 < openers sym_clist_open. Proof. cbv. lia. Qed.
-Lemma open_cmap : 0 < openers sym_cmap_open. Proof. cbv. lia. Qed.
-
-(* Ty::parse : the native recursion Ty -> Type -> Ty happens only after a '<' has been consumed *)
-Lemma tr_ty lf : forall d, trans (adm lf d) (adm lf d) (p_ty lf d).
+(* Ty::parse : the native recursion Ty -> Type -> Ty happens only after a '<' has been consumed; [d] is the depth
+   fuel, [m <= d] the level of admissibility of the input *)
+Lemma tr_ty lf : forall d m, m <= d -> trans (adm lf m) (adm lf m) (p_ty lf d).
 Proof.
-  induction d as [|d IH].
-  - intros i [_ O]. lia.
-  - pose proof (tr_type_of lf d _ IH) as IHt.
-    cbn [p_ty]. apply trans_alt. repeat apply Forall_cons; try apply Forall_nil; try (apply tr_base_ty).
+  induction d as [|d IH]; intros m Hm.
+  - replace m with 0 by lia. apply trans_vac.
+  - destruct m as [|m]; [apply trans_vac|].
+    assert (IHt : trans (adm lf m) (adm lf m) (p_type_of lf (p_ty lf d))) by (apply tr_type_of, IH; lia).
+    cbn [p_ty]. apply trans_alt. repeat apply Forall_cons; try apply Forall_nil; try (trg; fail).
     + (* list *)
-      stepS. stepS. eapply trans_seq; [apply trans_tag_open, open_list_lt | intro].
-      apply trans_post with (Q := adm lf d); [apply adm_weaken|].
-      stepS. apply trans_seq_same; [exact IHt|intro]. stepS. stepS. stepS. trg.
+      stepS. stepS. change sym_list_lt with [x3c]. eapply trans_seq; [apply trans_tag_open, open_lt | intro].
+      eapply trans_seq; [apply trans_opt, tr_blank|intro].
+      eapply trans_seq; [exact IHt|intro].
+      eapply trans_seq; [apply trans_opt, tr_blank|intro].
+      change sym_list_gt with [x3e]. eapply trans_seq; [apply trans_tag_close, close_gt | intro].
+      trg.
     + (* set *)
-      stepS. stepS. stepS. eapply trans_seq; [apply trans_tag_open, open_set_lt | intro].
-      apply trans_post with (Q := adm lf d); [apply adm_weaken|].
-      stepS. apply trans_seq_same; [exact IHt|intro]. stepS. stepS. trg.
+      stepS. stepS. stepS. change sym_set_lt with [x3c]. eapply trans_seq; [apply trans_tag_open, open_lt | intro].
+      eapply trans_seq; [apply trans_opt, tr_blank|intro].
+      eapply trans_seq; [exact IHt|intro].
+      eapply trans_seq; [apply trans_opt, tr_blank|intro].
+      change sym_set_gt with [x3e]. eapply trans_seq; [apply trans_tag_close, close_gt | intro].
+      trg.
     + (* map *)
-      stepS. stepS. stepS. eapply trans_seq; [apply trans_tag_open, open_map_lt | intro].
-      apply trans_post with (Q := adm lf d); [apply adm_weaken|].
-      stepS. apply trans_seq_same; [exact IHt|intro]. stepS. stepS. stepS.
-      apply trans_seq_same; [exact IHt|intro]. stepS. stepS. trg.
-    + trg.
+      stepS. stepS. stepS. change sym_map_lt with [x3c]. eapply trans_seq; [apply trans_tag_open, open_lt | intro].
+      eapply trans_seq; [apply trans_opt, tr_blank|intro].
+      eapply trans_seq; [exact IHt|intro].
+      eapply trans_seq; [apply trans_opt, tr_blank|intro].
+      eapply trans_seq; [apply tr_list_separator|intro].
+      eapply trans_seq; [apply trans_opt, tr_blank|intro].
+      eapply trans_seq; [exact IHt|intro].
+      eapply trans_seq; [apply trans_opt, tr_blank|intro].
+      change sym_map_gt with [x3e]. eapply trans_seq; [apply trans_tag_close, close_gt | intro].
+      trg.
 Qed.
 
-Lemma tr_type lf df : trans (adm lf df) (adm lf df) (p_type lf df).
-Proof. apply tr_type_of, tr_ty. Qed.
-#[export] Hint Resolve tr_type : safe.
+Lemma tr_type lf d m : m <= d -> trans (adm lf m) (adm lf m) (p_type lf d).
+Proof. intros H. apply tr_type_of, tr_ty, H. Qed.
 
 (* ConstValue::parse : recursion only after '[' or '{' *)
-Lemma tr_const_value lf : forall d, trans (adm lf d) (adm lf d) (p_const_value lf d).
+Lemma tr_const_value lf : forall d m, m <= d -> trans (adm lf m) (adm lf m) (p_const_value lf d).
 Proof.
-  induction d as [|d IH].
-  - intros i [_ O]. lia.
-  - cbn [p_const_value]. apply trans_alt. repeat apply Forall_cons; try apply Forall_nil; try (trg; fail).
+  induction d as [|d IH]; intros m Hm.
+  - replace m with 0 by lia. apply trans_vac.
+  - destruct m as [|m]; [apply trans_vac|].
+    assert (IHm : trans (adm lf m) (adm lf m) (p_const_value lf d)) by (apply IH; lia).
+    cbn [p_const_value]. apply trans_alt. repeat apply Forall_cons; try apply Forall_nil; try (trg; fail).
     + (* list *)
-      eapply trans_seq; [apply trans_tag_open, open_clist | intro].
-      apply trans_post with (Q := adm lf d); [apply adm_weaken|].
-      apply trans_seq_same; [|intro; trg].
-      apply trans_many0; [trg|].
-      stepS. apply trans_seq_same; [exact IH|intro]. trg.
+      change sym_clist_open with [x5b]. eapply trans_seq; [apply trans_tag_open, open_sq | intro].
+      eapply trans_seq; [|intro].
+      { apply trans_many0; [trg|]. stepS. apply trans_seq_same; [exact IHm|intro]. trg. }
+      eapply trans_seq; [apply trans_opt, tr_blank|intro].
+      change sym_clist_close with [x5d]. eapply trans_seq; [apply trans_tag_close, close_sq | intro].
+      trg.
     + (* map *)
-      eapply trans_seq; [apply trans_tag_open, open_cmap | intro].
-      apply trans_post with (Q := adm lf d); [apply adm_weaken|].
-      apply trans_seq_same; [|intro; trg].
-      apply trans_many0; [trg|].
-      stepS. apply trans_seq_same; [exact IH|intro]. stepS. stepS. stepS.
-      apply trans_seq_same; [exact IH|intro]. trg.
+      change sym_cmap_open with [x7b]. eapply trans_seq; [apply trans_tag_open, open_br | intro].
+      eapply trans_seq; [|intro].
+      { apply trans_many0; [trg|]. stepS. apply trans_seq_same; [exact IHm|intro]. stepS. stepS. stepS.
+        apply trans_seq_same; [exact IHm|intro]. trg. }
+      eapply trans_seq; [apply trans_opt, tr_blank|intro].
+      change sym_cmap_close with [x7d]. eapply trans_seq; [apply trans_tag_close, close_br | intro].
+      trg.
 Qed.
-#[export] Hint Resolve tr_const_value : safe.
 
 Section Productions2.
-Variables lf df : nat.
-Local Notation P := (adm lf df).
+Variables lf df m : nat.
+Hypothesis Hm : m <= df.
+Local Notation P := (adm lf m).
+
+Lemma tr_type' : trans P P (p_type lf df).
+Proof. apply tr_type, Hm. Qed.
+Lemma tr_const_value' : trans P P (p_const_value lf df).
+Proof. apply tr_const_value, Hm. Qed.
+Hint Resolve tr_type' tr_const_value' : safe.
 
 Lemma tr_constant : trans P P (p_constant lf df).
 Proof. unfold p_constant. trg. Qed.
@@ -628,56 +713,84 @@ Proof. unfold p_typedef. trg. Qed.
 
 Lemma tr_field : trans P P (p_field lf df).
 Proof. unfold p_field. do 8 stepS. trg. Qed.
+End Productions2.
 
-Lemma tr_fields0 : trans P P (many0 lf (fun i => do i, _ <- opt (p_blank lf) i ;; p_field lf df i)).
-Proof. pose proof tr_field. apply trans_many0; trg. Qed.
+(* a production enclosed in braces: the body runs one level lower *)
+Section Braced.
+Variables lf df : nat.
 
-Lemma tr_fields1 : trans P P (many1 lf (fun i => do i, _ <- opt (p_blank lf) i ;; p_field lf df i)).
-Proof. pose proof tr_field. apply trans_many1; trg. Qed.
+Lemma tr_fields0 m : m <= df ->
+  trans (adm lf m) (adm lf m) (many0 lf (fun i => do i, _ <- opt (p_blank lf) i ;; p_field lf df i)).
+Proof. intros Hm. pose proof (tr_field lf df m Hm). apply trans_many0; trg. Qed.
 
-Lemma tr_struct_like : trans P P (p_struct_like lf df).
-Proof. pose proof tr_fields0. unfold p_struct_like. do 3 stepS. trg. Qed.
+Lemma tr_fields1 m : m <= df ->
+  trans (adm lf m) (adm lf m) (many1 lf (fun i => do i, _ <- opt (p_blank lf) i ;; p_field lf df i)).
+Proof. intros Hm. pose proof (tr_field lf df m Hm). apply trans_many1; trg. Qed.
 
-Lemma tr_struct : trans P P (p_struct lf df).
-Proof. pose proof tr_struct_like. unfold p_struct. trg. Qed.
-Lemma tr_union : trans P P (p_union lf df).
-Proof. pose proof tr_struct_like. unfold p_union. trg. Qed.
-Lemma tr_exception : trans P P (p_exception lf df).
-Proof. pose proof tr_struct_like. unfold p_exception. trg. Qed.
-
-Lemma tr_function : trans P P (p_function lf df).
+Lemma tr_struct_like m : m <= df -> trans (adm lf m) (adm lf m) (p_struct_like lf df).
 Proof.
-  pose proof tr_fields1. unfold p_function.
+  intros Hm. destruct m as [|m]; [apply trans_vac|]. unfold p_struct_like. stepS. stepS.
+  change sym_struct_open with [x7b]. eapply trans_seq; [apply trans_tag_open, open_br | intro].
+  eapply trans_seq; [apply tr_fields0; lia|intro].
+  eapply trans_seq; [apply trans_opt, tr_blank|intro].
+  change sym_struct_close with [x7d]. eapply trans_seq; [apply trans_tag_close, close_br | intro].
+  trg.
+Qed.
+
+Lemma tr_struct m : m <= df -> trans (adm lf m) (adm lf m) (p_struct lf df).
+Proof. intros Hm. pose proof (tr_struct_like m Hm). unfold p_struct. trg. Qed.
+Lemma tr_union m : m <= df -> trans (adm lf m) (adm lf m) (p_union lf df).
+Proof. intros Hm. pose proof (tr_struct_like m Hm). unfold p_union. trg. Qed.
+Lemma tr_exception m : m <= df -> trans (adm lf m) (adm lf m) (p_exception lf df).
+Proof. intros Hm. pose proof (tr_struct_like m Hm). unfold p_exception. trg. Qed.
+
+Lemma tr_enum m : trans (adm lf m) (adm lf m) (p_enum lf).
+Proof.
+  destruct m as [|m]; [apply trans_vac|]. unfold p_enum. do 4 stepS.
+  change sym_enum_open with [x7b]. eapply trans_seq; [apply trans_tag_open, open_br | intro].
+  eapply trans_seq; [apply trans_opt, tr_blank|intro].
+  eapply trans_seq; [apply trans_many0; trg|intro].
+  eapply trans_seq; [apply trans_opt, tr_blank|intro].
+  change sym_enum_close with [x7d]. eapply trans_seq; [apply trans_tag_close, close_br | intro].
+  trg.
+Qed.
+
+Lemma tr_function m : m <= df -> trans (adm lf m) (adm lf m) (p_function lf df).
+Proof.
+  intros Hm. pose proof (tr_fields1 m Hm). pose proof (tr_type' lf df m Hm). unfold p_function.
   apply trans_seq_same; [apply trans_pmap; trg|intro]. do 9 stepS.
   apply trans_seq_same; [|intro; trg].
-  apply trans_opt; [trg|]. do 3 stepS. trg.
+  apply trans_opt. do 3 stepS. trg.
 Qed.
 
-Lemma tr_service : trans P P (p_service lf df).
+Lemma tr_service m : m <= df -> trans (adm lf m) (adm lf m) (p_service lf df).
 Proof.
-  pose proof tr_function. unfold p_service. do 6 stepS.
-  apply trans_seq_same; [|intro; trg]. apply trans_many0; trg.
+  intros Hm. destruct m as [|m]; [apply trans_vac|]. unfold p_service. do 5 stepS.
+  change sym_service_open with [x7b]. eapply trans_seq; [apply trans_tag_open, open_br | intro].
+  eapply trans_seq; [|intro].
+  { pose proof (tr_function m ltac:(lia)). apply trans_many0; trg. }
+  eapply trans_seq; [apply trans_opt, tr_blank|intro].
+  change sym_service_close with [x7d]. eapply trans_seq; [apply trans_tag_close, close_br | intro].
+  trg.
 Qed.
 
-Lemma tr_item_keyword : trans P P p_item_keyword.
-Proof. unfold p_item_keyword. trg. Qed.
-
-Lemma tr_item : trans P P (p_item lf df).
+Lemma tr_item m : m <= df -> trans (adm lf m) (adm lf m) (p_item lf df).
 Proof.
-  pose proof tr_constant. pose proof tr_typedef. pose proof tr_struct. pose proof tr_union.
-  pose proof tr_exception. pose proof tr_service.
+  intros Hm.
+  pose proof (tr_constant lf df m Hm). pose proof (tr_typedef lf df m Hm). pose proof (tr_struct m Hm).
+  pose proof (tr_union m Hm). pose proof (tr_exception m Hm). pose proof (tr_service m Hm). pose proof (tr_enum m).
   unfold p_item. apply trans_seq_same; [apply tr_item_keyword|intro kw].
   repeat match goal with |- trans _ _ (fun _ => if ?c then _ else _) => destruct c end;
     try (apply trans_pmap; trg).
   intros i _. exact I.
 Qed.
 
-Lemma tr_file : trans P P (p_file lf df).
+Lemma tr_file m : m <= df -> trans (adm lf m) (adm lf m) (p_file lf df).
 Proof.
-  pose proof tr_item. unfold p_file. apply trans_seq_same; [|intro; trg].
+  intros Hm. pose proof (tr_item m Hm). unfold p_file. apply trans_seq_same; [|intro; trg].
   apply trans_many_till; trg.
 Qed.
-End Productions2.
+End Braced.
 
 (* ---------- C16 ---------- *)
 Definition outcome_ok {A} (r : pres A) : Prop :=
@@ -686,13 +799,22 @@ Definition outcome_ok {A} (r : pres A) : Prop :=
 Lemma ok_res_outcome {A} Q i (r : pres A) : ok_res Q i r -> outcome_ok r.
 Proof. destruct r; cbn; auto. Qed.
 
-(* loop fuel above the length and depth fuel above the number of opening brackets are never exhausted, and no
-   conversion panics *)
-Theorem parse_fuel_sufficient : forall lf df s, length s < lf -> openers s < df -> outcome_ok (p_file lf df s).
-Proof. intros lf df s L O. eapply ok_res_outcome. apply tr_file. split; assumption. Qed.
+(* loop fuel above the length and depth fuel above the bracket nesting are never exhausted, and no conversion
+   panics.  The depth fuel is decremented exactly where the Rust code recurses natively (Parser.v), so this bounds
+   the native recursion depth by the lexical nesting of the text: at most [nesting s + 1] nested activations of
+   Ty::parse (through Type::parse) and of ConstValue::parse. *)
+Theorem parse_depth_bound : forall lf df s, length s < lf -> (nesting s < Z.of_nat df)%Z -> outcome_ok (p_file lf df s).
+Proof. intros lf df s L O. eapply ok_res_outcome. apply (tr_file lf df df (le_n df)). split; assumption. Qed.
 
 Theorem parse_total : forall s, outcome_ok (parse_file s).
 Proof.
-  intros s. unfold parse_file. apply parse_fuel_sufficient; [lia|].
-  pose proof (openers_le_len s). lia.
+  intros s. unfold parse_file. apply parse_depth_bound; [lia|].
+  pose proof (nesting_le_len s). lia.
 Qed.
+
+(* non-vacuity: a text of nesting 2 parsed with depth fuel 3 *)
+Example depth_bound_example :
+  let s := [x63;x6f;x6e;x73;x74;x20;x6c;x69;x73;x74;x3c;x6c;x69;x73;x74;x3c;x69;x38;x3e;x3e;x20;x78;x3d;x5b;x5b;x31;x5d;x5d] in
+  nesting s = 2%Z /\ match p_file (S (length s)) 3 s with POk [] _ => True | _ => False end /\
+  p_file (S (length s)) 2 s = PFuel FDepth.
+Proof. vm_compute. repeat split. Qed.
